@@ -1,6 +1,6 @@
 #!/bin/bash
 # Real-code demonstrations of the genuine defects found by the contract checks (DESIGN.md §8).
-# usage: demo.sh <xcp-binary> <F1..F11>      exit 0 = behaviour correct, exit 1 = defect shown
+# usage: demo.sh <xcp-binary> <F1..F12>      exit 0 = behaviour correct, exit 1 = defect shown
 X=$1; WHICH=$2
 D=$(mktemp -d /tmp/xcpdemo.XXXXXX); trap 'rm -rf "$D"' EXIT; cd "$D" || exit 2
 case "$WHICH" in
@@ -68,5 +68,11 @@ F11) # a source that ends in `..`: entries were created beside the destination i
     if [ -e top/f ] || [ -e top/b ]; then echo "DEFECT F11: 'xcp -r .. ../../out' (exit $rc) created entries in the parent of the destination: $(ls top | tr '\n' ' ')"; exit 1; fi
     if [ $rc = 0 ] && { [ ! -f top/out/f ] || [ ! -d top/out/b ]; }; then echo "DEFECT F11: exit 0 but the tree is not inside the destination"; exit 1; fi
     echo "F11 ok (exit $rc)"; exit 0;;
+F12) # --dereference: a link to a directory became an empty directory
+    mkdir -p s/d out; echo x > s/d/f; ln -s d s/l
+    timeout 120 "$X" -r -L s out >/dev/null 2>&1; rc=$?
+    if [ $rc = 0 ] && [ ! -f out/s/l/f ]; then echo "DEFECT F12: 'xcp -r -L s out' exit 0 but out/s/l has no f: $(find out | sort | tr '\n' ' ')"; exit 1; fi
+    if [ -L out/s/l ]; then echo "DEFECT F12: out/s/l is still a link"; exit 1; fi
+    echo "F12 ok (exit $rc)"; exit 0;;
 *) echo "unknown finding $WHICH"; exit 2;;
 esac
